@@ -123,7 +123,7 @@ func lex(src string) ([]tok, error) {
 		}
 		if unicode.IsLetter(rune(c)) || c == '_' {
 			j := i
-			for j < len(src) && (unicode.IsLetter(rune(src[j])) || unicode.IsDigit(rune(src[j])) || src[j] == '_' || src[j] == '$') {
+			for j < len(src) && (unicode.IsLetter(rune(src[j])) || unicode.IsDigit(rune(src[j])) || src[j] == '_' || src[j] == '$' || (src[j] == '#' && j+1 < len(src) && src[j+1] >= '0' && src[j+1] <= '9')) {
 				j++
 			}
 			out = append(out, tok{"ident", src[i:j], i})
